@@ -16,6 +16,13 @@ type Violation struct {
 	Plan     json.RawMessage `json:"plan"`
 	Observed interface{}     `json:"observed,omitempty"`
 	Expected interface{}     `json:"expected,omitempty"`
+	// where the exploring worker met it (lets the driver rebuild the plans that ran before it)
+	StreamSeed uint64 `json:"stream_seed,omitempty"`
+	Idx        int    `json:"idx,omitempty"`
+	Shard      int    `json:"shard,omitempty"`
+	NShards    int    `json:"nshards,omitempty"`
+	// plans that must run first, in the same process, for the violation to show
+	Prefix []json.RawMessage `json:"prefix,omitempty"`
 }
 
 // RunResult is what executing one plan yields.
